@@ -28,5 +28,6 @@ def run(e, R, tier):
         L.r_mgr_self,
         SC.r_scn_worker,
         SC.r_scn_result,
+        T.r_exit_nested,
     ])
     R.trust("queue get(timeout) raises Empty on timeout; Lock.acquire(block=False) never blocks")
